@@ -51,8 +51,22 @@ let show_post (p : post) =
 
 let handle line =
   match parse_sexp line with
-  | L (A "journal" :: A id :: L [A "permissive"; pm] :: xacts) ->
+  | L (A "journal" :: A id :: L [A "permissive"; pm] :: rest) ->
     let permissive = batom pm in
+    (* (auto (rule MATCHHEX (line PREFIXHEX USE-ACCOUNT KIND NUM DEN) ...) ...): automated transactions *)
+    let rules, xacts = (match rest with
+        | L (A "auto" :: rs) :: xs ->
+          List.map (function
+              | L (A "rule" :: m :: ls) ->
+                { ar_match = str_of_hex (atom m);
+                  ar_lines = List.map (function
+                      | L [A "line"; pre; use; A kind; n; d] ->
+                        { al_prefix = (match atom pre with "-" -> [] | h -> str_of_hex h); al_use_acct = batom use;
+                          al_kind = (match kind with "R" -> PReal | "V" -> PVirtual | "B" -> PBalVirtual | _ -> failwith "kind");
+                          al_mult = { aq = h_qred (h_qmake (zatom n) (zatom d)); aprec = Z0; akeep = false; acomm = None } }
+                      | _ -> failwith "line") ls }
+              | _ -> failwith "rule") rs, xs
+        | xs -> [], xs) in
     let cp0 _ = Z0 in
     let xs = List.map (function L (A "xact" :: ps) -> List.map (post_of cp0) ps | _ -> failwith "xact") xacts in
     let run ord =
@@ -61,7 +75,7 @@ let handle line =
           | Ok (Accepted ps) -> Printf.sprintf "%s %d OK %s" id i (String.concat ";" (List.map show_post ps))
           | Ok Ignored -> Printf.sprintf "%s %d IGNORED" id i
           | Err e -> Printf.sprintf "%s %d ERR %s" id i (err_name e))
-        (run_journal_a ord permissive [] [] xs) in
+        (run_journal_x (auto_ext rules) ord permissive [] [] xs) in
     let r1 = run false and r2 = run true in
     List.map2 (fun a b -> if a = b then a else
                   (let i = String.index_from a (String.index a ' ' + 1) ' ' in
